@@ -147,6 +147,9 @@ def replay(ctx, rep):   # noqa: F811
 # opposite ends living in two resources: after a load (either file first) one end may hold its partner through a
 # resolved proxy; every mutation on either end keeps the ends symmetric all the same  (implementation only)
 
+DANGLING = object()
+
+
 def cross_resource_scenarios(ctx, out):
     import os
     import tempfile
@@ -217,7 +220,12 @@ def cross_resource_scenarios(ctx, out):
             cnt += 1
 
             def un(v):
-                return v.force_resolve() if isinstance(v, EProxy) else v
+                if not isinstance(v, EProxy):
+                    return v
+                try:
+                    return v.force_resolve()
+                except Exception:  # noqa  (a dangling proxy: stands for no object of the model)
+                    return DANGLING
 
             def vals(o, f, many):
                 v = o.eGet(f)
@@ -240,7 +248,7 @@ def cross_resource_scenarios(ctx, out):
                 t, p = rng.choice(lt), rng.choice(lp)
                 side = rng.choice(['team-end', 'person-end'])
                 o, feat, many, other = (t, f, m1, p) if side == 'team-end' else (p, g, m2, t)
-                k = rng.choice(['remove', 'pop', 'clear', 'append', 'del']) if many else rng.choice(['set', 'unset', 'del'])
+                k = rng.choice(['remove', 'pop', 'clear', 'append', 'del']) if many else rng.choice(['set', 'unset', 'del', 'set-dangling'])
                 hist['ops'].append([side, feat, k, o.name, other.name])
                 ops += 1
                 try:
@@ -261,6 +269,13 @@ def cross_resource_scenarios(ctx, out):
                         o.eSet(feat, other)
                     elif k == 'unset':
                         o.eSet(feat, None)
+                    elif k == 'set-dangling':
+                        # a proxy whose fragment names nothing: the call may raise; whatever it leaves behind, the
+                        # objects of the model still agree (the previous partner was released, or nothing changed)
+                        try:
+                            o.eSet(feat, EProxy(path='//@nowhere.99', resource=o.eResource))
+                        except Exception as e:  # noqa
+                            hist['ops'][-1].append(type(e).__name__)
                     else:
                         delattr(o, feat)
                 except (KeyError, RuntimeError):
@@ -276,6 +291,8 @@ def cross_resource_scenarios(ctx, out):
                     out.fail({'property': 'C01', 'clause': 'asymmetric-across-resources', 'format': fmt},
                              f'after {hist["ops"][-1]} (loaded {first} first): {bad}', case)
                     break
+                if k == 'set-dangling':
+                    break         # the slot may now hold a proxy that names nothing: later calls on it are not C01's subject
     out.coverage['cross_resource_models'] = cnt
     out.coverage['cross_resource_operations'] = ops
 
